@@ -14,8 +14,8 @@
   reacting to stop or not), EVERY consumer and EVERY sequence of legal external events:
   cleanup() of a source is started at most once, never while its next() is outstanding, and when the
   consumer's result is delivered every source whose next() was ever started has completed its cleanup;
-  and (expressions without take_until) the delivered elements are always a prefix of the specified
-  sequence, wherever a stop request arrives.
+  and the delivered elements are always a prefix of the sequence the pipeline delivers without any stop
+  request, wherever a stop request arrives or a take_until trigger fires.
 
   Part C — take_until's cleanup operation objects: each is destructed exactly once (regression of DESIGN §8 #6,
   fixed in /repo: `trigger_receiver::set_done` destructs `triggerOp_`).
@@ -182,13 +182,11 @@ theorem den_stop_prefix (e : SExpr) : (e.den specs true).1 <+: (e.den specs fals
   | stopImmediately s ih => simp [SExpr.den]
   | takeUntil s t ihs iht => exact List.prefix_refl _
 
-/-- **stop_ends_early_no_dup_no_invent (partial)**: a stop request before start makes reduce_stream /
+/-- **stop_before_start_prefix_inline**: a stop request before start makes reduce_stream /
     for_each receive a PREFIX of the elements they receive without it — for every inline stream
-    expression.  PARTIAL: the stop position is "before start"; inline streams have no other position (they
-    run to completion inside start()).  For a stop request arriving between the completions of PENDING
-    next() operations the prefix property is not proved here; it is covered by the differential tie
-    (tools/stream.py: stop at a random position of every script). -/
-theorem stop_ends_early_no_dup_no_invent_partial (e : SExpr) (c : Consumer) (hk : c.kind ≠ .manual)
+    expression.  (Kept as the inline special case, stated against the unstopped run itself; the general
+    statement for pending sources and an arbitrary stop position is `stop_ends_early_no_dup_no_invent`.) -/
+theorem stop_before_start_prefix_inline (e : SExpr) (c : Consumer) (hk : c.kind ≠ .manual)
     (hc : c.thr = none) (hI : e.Inline specs) :
     (rootStep specs { Root.init c e with stopped := true } .start).1.delivered <+:
       (rootStep specs (Root.init c e) .start).1.delivered := by
@@ -254,19 +252,24 @@ theorem cleanup_once_iff_next_started (c : Consumer) (e : SExpr) (evs : List REv
   · omega
 
 /-- **stop_ends_early_no_dup_no_invent**: whatever happens — a stop request at ANY position of the event
-    sequence, completions in any order, errors, a throwing reducer — the elements handed to the consumer
-    are, in order, a PREFIX of the sequence the specification assigns to the pipeline without stop: nothing
-    is duplicated, reordered or invented; a stop request (or an error) can only end the sequence early.
-    For every stream expression WITHOUT take_until, every source script, every consumer, every sequence of
-    legal external events.  (With take_until the trigger legitimately truncates the source at a point the
-    specification of the source alone cannot name; for those pipelines see
-    `stop_ends_early_no_dup_no_invent_partial` and the differential tie.) -/
-theorem stop_ends_early_no_dup_no_invent (c : Consumer) (e : SExpr) (hnt : e.NoTake) (evs : List REv) :
-    (final specs c e evs).delivered <+: (e.den specs false).1 := by
+    sequence, a take_until trigger firing at any moment, completions in any order, errors, a throwing reducer —
+    the elements handed to the consumer are, in order, a PREFIX of `SExpr.free`, the sequence the pipeline
+    delivers when no stop request ever arrives (Calc/StreamPrefix.lean; for take_until it is the source's
+    sequence: the trigger is a stop request): nothing is duplicated, reordered or invented; a stop request, a
+    trigger or an error can only end the sequence early.
+    For EVERY stream expression, every source script, every consumer, every sequence of legal external events. -/
+theorem stop_ends_early_no_dup_no_invent (c : Consumer) (e : SExpr) (evs : List REv) :
+    (final specs c e evs).delivered <+: e.free specs := by
   have h := runEvents_phi specs ((connect e).phi specs) evs (Root.init c e) (init_inv c e)
-    (init_pinv specs c e (connect_noTake e hnt) (connect_SI2 e))
-  rw [← connect_phi specs e hnt]
+    (init_pinv specs c e (Op.noTake_all _) (connect_SI2 e))
+  rw [← connect_phi_free specs e]
   exact h.pre
+
+/-- … and without take_until `free` is the specification's sequence `den` itself -/
+theorem stop_ends_early_prefix_of_den (c : Consumer) (e : SExpr) (hnt : e.NoTake) (evs : List REv) :
+    (final specs c e evs).delivered <+: (e.den specs false).1 := by
+  rw [← free_eq_den specs e hnt]
+  exact stop_ends_early_no_dup_no_invent specs c e evs
 
 /-- **stop_immediately_abandons_then_awaits**: (1) a stop request while next(source) is outstanding
     completes the adaptor's next() with done AT ONCE, whatever the source does with the stop request;
@@ -358,6 +361,17 @@ example :
     let e := SExpr.filter .even (.stopImmediately (.src 1))
     (runEvents specs (Root.init ⟨.reduce, 0, 10, none⟩ e) [.start, .compNext 1, .stop, .compNext 1]).1.delivered = [2] ∧
       (e.den specs false).1 = [2, 4, 6] := by
+  decide +kernel
+
+/-- take_until: the trigger fires while the second next() of the source is pending — the consumer got [3] out of
+    the source's [3, 4, 5] (`stop_ends_early_no_dup_no_invent` on a take_until pipeline) -/
+example :
+    let specs : Nat → SrcSpec := fun i =>
+      if i = 1 then ⟨[.inl (.value 3), .pend (.value 4) .completeDone, .pend (.value 5) .ignore], .inl none⟩
+      else ⟨[.pend (.value 0) .ignore], .inl none⟩
+    let e := SExpr.takeUntil (.src 1) (.src 2)
+    (runEvents specs (Root.init ⟨.reduce, 0, 10, none⟩ e) [.start, .compNext 2]).1.delivered = [3] ∧
+      e.free specs = [3, 4, 5] := by
   decide +kernel
 
 end Unifex.Props.C13
